@@ -85,6 +85,22 @@ pub fn check(prop: &str, tier: Tier, seed: u64, known: &Known) -> CheckResult {
             Err(e) => res.inconclusive = Some(e),
         }
     }
+    // thorough tier: coverage-guided campaigns with the same oracles (E3)
+    if tier == Tier::Thorough && std::env::var("VF_NO_FUZZ").is_err() {
+        let campaigns: Vec<(&'static str, &str, u64)> = match prop {
+            "C16" => vec![("C16", "tape", 3_000_000), ("C16", "text", 2_000_000)],
+            "C17" => vec![("C17", "tape", 2_000_000)],
+            "C19" => vec![("C19", "tape", 1_000_000), ("C19", "text", 1_000_000)],
+            _ => vec![],
+        };
+        for (p, target, runs) in campaigns {
+            let runs = std::env::var("VF_FUZZ_RUNS").ok().and_then(|x| x.parse().ok()).unwrap_or(runs);
+            match crate::fuzzing::run_campaign(p, target, runs, seed) {
+                Ok(st) => res.parts.push(st),
+                Err(e) => res.inconclusive = Some(e),
+            }
+        }
+    }
     match prop {
         "C18" => c18::run(&mut res, tier, seed, known),
         "C19" => c19::extra_parts(&mut res, tier, seed, known),
